@@ -25,11 +25,20 @@ func format(tr *tokenReader, w io.Writer) error {
 			if newlineBeforeNextRecord {
 				ew.SafeWrite([]byte{'\n'})
 			}
-			// opcode, next tokens are 'opcode', '(', hex or string lit, ')', ']'
+			// an attribute is either [flags] or [opcode(<hex or string lit>)]
 			opCodeBytes := t.concrete
-			for j := 0; j < 5; j++ {
+			tr.Next()
+			opCodeBytes = append(opCodeBytes, tr.Token().concrete...)
+			if tr.Token().kind == tokenKindFlags {
+				// next token is ']'
 				tr.Next()
 				opCodeBytes = append(opCodeBytes, tr.Token().concrete...)
+			} else {
+				// next tokens are '(', hex or string lit, ')', ']'
+				for j := 0; j < 4; j++ {
+					tr.Next()
+					opCodeBytes = append(opCodeBytes, tr.Token().concrete...)
+				}
 			}
 			// inject newline after opcodes
 			opCodeBytes = append(opCodeBytes, '\n')
@@ -44,6 +53,14 @@ func format(tr *tokenReader, w io.Writer) error {
 			cmtBytes = append(cmtBytes, []byte("\n")...)
 			ew.SafeWrite(cmtBytes)
 			newlineBeforeNextRecord = false
+		case tokenKindImport:
+			// import <string lit>
+			importBytes := append(t.concrete, ' ')
+			tr.Next()
+			importBytes = append(importBytes, tr.Token().concrete...)
+			importBytes = append(importBytes, '\n')
+			ew.SafeWrite(importBytes)
+			newlineBeforeNextRecord = true
 		case tokenKindReadOnly:
 			readOnly = true
 			continue
@@ -84,13 +101,21 @@ func format(tr *tokenReader, w io.Writer) error {
 }
 
 func formatEnum(tr *tokenReader) []byte {
-	// enum <ID> {\n
+	// enum <ID> [: <TYPE>] {\n
 	enumBytes := tr.Token().concrete
-	for j := 0; j < 2; j++ {
+	enumBytes = append(enumBytes, ' ')
+	tr.Next()
+	enumBytes = append(enumBytes, tr.Token().concrete...)
+	tr.Next()
+	if tr.Token().kind == tokenKindColon {
+		enumBytes = append(enumBytes, tr.Token().concrete...)
 		enumBytes = append(enumBytes, ' ')
 		tr.Next()
 		enumBytes = append(enumBytes, tr.Token().concrete...)
+		tr.Next()
 	}
+	enumBytes = append(enumBytes, ' ')
+	enumBytes = append(enumBytes, tr.Token().concrete...)
 	enumBytes = append(enumBytes, '\n')
 
 tokenLoop:
@@ -114,14 +139,15 @@ tokenLoop:
 			deprecatedBytes = append(deprecatedBytes, '\n')
 			enumBytes = append(enumBytes, deprecatedBytes...)
 		case tokenKindIdent:
-			// <ID> = <NUM>;
+			// <ID> = <NUM or flag expression>;
 			optBytes := append([]byte{'\t'}, t.concrete...)
-			for j := 0; j < 2; j++ {
+			for tr.Next() {
+				if tr.Token().kind == tokenKindSemicolon {
+					break
+				}
 				optBytes = append(optBytes, ' ')
-				tr.Next()
 				optBytes = append(optBytes, tr.Token().concrete...)
 			}
-			tr.Next()
 			optBytes = append(optBytes, []byte(";\n")...)
 			enumBytes = append(enumBytes, optBytes...)
 		case tokenKindCloseCurly:
@@ -353,13 +379,14 @@ func formatType(tr *tokenReader) []byte {
 		typeBytes = append(typeBytes, tr.Token().concrete...)
 	}
 
-	// ...[]?
-	tr.Next()
-	if tr.Token().kind == tokenKindOpenSquare {
+	// ...[]*
+	for tr.Next() {
+		if tr.Token().kind != tokenKindOpenSquare {
+			tr.UnNext()
+			break
+		}
 		tr.Next()
 		typeBytes = append(typeBytes, []byte("[]")...)
-	} else {
-		tr.UnNext()
 	}
 
 	return typeBytes
